@@ -324,6 +324,53 @@ def check_results(ctx):
                    'assigned on every path: %s' % sorted(assigned))
 
 
+def only_raises(fn):
+    body = [s_ for s_ in fn.body if not (isinstance(s_, ast.Expr) and isinstance(s_.value, ast.Constant))]
+    return bool(body) and isinstance(body[0], ast.Raise)
+
+
+def check_volume_object_ops(ctx):
+    """A plain `Volume` is a legitimate volume object (the entry point builds one itself for volume=True / a number): whatever the entry
+    point calls on the volume object must be implemented by the base class, not only by its subclasses."""
+    prog = ctx.prog
+    f = ctx.fn('simulator:py_simulate_model')
+    # names that hold the volume object: the `volume` argument and locals assigned from it or from Volume()
+    names = {'volume'}
+    for n in ast.walk(f):
+        if isinstance(n, ast.Assign) and len(n.targets) == 1 and isinstance(n.targets[0], ast.Name):
+            v = n.value
+            if (isinstance(v, ast.Name) and v.id in names) or (isinstance(v, ast.Call) and src(v.func) in ('Volume', 'types.Volume')) or \
+                    (isinstance(v, ast.Call) and isinstance(v.func, ast.Attribute) and isinstance(v.func.value, ast.Name) and v.func.value.id in names):
+                names.add(n.targets[0].id)
+    problems = []
+    n_calls = 0
+    for c in ast.walk(f):
+        if isinstance(c, ast.Call) and isinstance(c.func, ast.Attribute) and isinstance(c.func.value, ast.Name) and c.func.value.id in names:
+            m = c.func.attr
+            n_calls += 1
+            seen = set()
+            while m not in seen:
+                seen.add(m)
+                dc, fn = prog.resolve_method('Volume', m)
+                if fn is None:
+                    problems.append('%s.%s(): the base class Volume has no such method' % (c.func.value.id, m))
+                    break
+                if only_raises(fn):
+                    problems.append('%s.%s() (line %d) reaches Volume.%s, which only raises %s' % (c.func.value.id, c.func.attr, c.lineno, m,
+                                    src(fn.body[-1] if not fn.body else [s_ for s_ in fn.body if isinstance(s_, ast.Raise)][0].exc)[:60]))
+                    break
+                # a python wrapper that only forwards to a slot of the same object: follow it
+                body = [s_ for s_ in fn.body if not (isinstance(s_, ast.Expr) and isinstance(s_.value, ast.Constant))]
+                fwd = body[0].value if len(body) == 1 and isinstance(body[0], (ast.Return, ast.Expr)) else None
+                if isinstance(fwd, ast.Call) and isinstance(fwd.func, ast.Attribute) and src(fwd.func.value) == 'self':
+                    m = fwd.func.attr
+                else:
+                    break
+    ctx.ob('R7.2-concrete-model-ops', 'Volume@py_simulate_model', not problems and n_calls > 0, ctx.loc('simulator', f),
+           'every method the entry point calls on the volume object is implemented by the base class Volume (a plain Volume is what it builds itself)',
+           '; '.join(sorted(set(problems))))
+
+
 def check_optional_model(ctx):
     """With a pre-built interface the entry point has no Model: the data frame conversion gets Model=None.  Every use of the
     optional argument inside the conversion must therefore be under a test that it is there."""
@@ -488,6 +535,7 @@ def check(ctx):
     check_dispatch(ctx, f)
     check_results(ctx)
     check_optional_model(ctx)
+    check_volume_object_ops(ctx)
     check_shapes(ctx)
     # first-row clause: the row at the initial time is the initial condition with the rules applied - it needs the rules to run first in
     # an iteration (C09 R9.3) and the rows to be recorded before the state is updated (C05 R5.2); both are re-emitted here.
